@@ -156,6 +156,10 @@ class RaiseModel:
         for name in res.ext_names:
             if name in TOTAL_EXTERNAL:
                 continue
+            if name == "os.chdir" and self._is_saved_cwd(call, fn):
+                # restoring the directory the process was in at entry: fails only if that
+                # directory was removed meanwhile (same out-of-model case as os.getcwd)
+                continue
             last = name.rsplit(".", 1)[-1]
             if last in TOTAL_METHODS and "." in name:
                 continue
@@ -169,6 +173,14 @@ class RaiseModel:
             else:
                 out.add(ANY_E)
         return out
+
+    def _is_saved_cwd(self, call: ast.Call, fn: FuncInfo | None) -> bool:
+        if fn is None or len(call.args) != 1 or not isinstance(call.args[0], ast.Name):
+            return False
+        defs = self.rs.local_defs(fn).get(call.args[0].id, [])
+        return bool(defs) and all(
+            k == "assign" and isinstance(p, ast.Call) and "os.getcwd" in self.rs.callee_names(p, fn) for k, p in defs
+        )
 
     def _attrs_has_converters(self, c: ClassInfo) -> bool:
         for k in c.mro():
